@@ -547,6 +547,11 @@ def handcrafted_c12():
     out.append(("hc_tie", tzif.write_tzif(b"2", [100000000], [1], ty, abbr, b"STD5DST4,J1/0,J1/0", v1_block=False)))
     out.append(("hc_types300dst", tzif.write_tzif(b"2", [100000000], [0], [(3600, 1, 0)] * 300, b"DST\0", b"", v1_block=False)))
     out.append(("hc_types300std", tzif.write_tzif(b"2", [100000000], [0], [(3600, 1, 0)] * 299 + [(0, 0, 0)], b"DST\0", b"", v1_block=False)))
+    # consistent files with edge-case counts in the 64-bit header (the 32-bit header is a minimal valid stub)
+    out.append(("hc_v2_notypes", tzif.write_tzif(b"2", [], [], [], b"", b"", v1_block=False)))
+    out.append(("hc_v2_notypes_footer", tzif.write_tzif(b"2", [], [], [], b"", b"UTC0", v1_block=False)))
+    out.append(("hc_v2_nochars", tzif.write_tzif(b"2", [], [], [(0, 0, 0)], b"", b"", v1_block=False)))
+    out.append(("hc_v2_onetype", tzif.write_tzif(b"2", [], [], [(0, 0, 0)], b"\0", b"", v1_block=False)))
     out.append(("hc_empty", b""))
     out.append(("hc_hdr_only", b"TZif2" + b"\0" * 15 + struct.pack(">6l", 0, 0, 0, 0, 1, 1)))
     return out
@@ -582,6 +587,23 @@ def gen_c12(tier, rng):
             continue
         k += 1
         zones.append(("m%05d" % k, m))
+    # small CONSISTENT files with edge-case shapes (every section length matches its count)
+    for j in range(120 if tier == "quick" else 5000):
+        typecnt = rng.choice([0, 1, 1, 2, 3, 255, 256, 257])
+        charcnt = rng.choice([0, 1, 4, 8])
+        timecnt = rng.choice([0, 0, 1, 2, 5])
+        types = [(rng.choice([0, 3600, -3600, 86399, -86399, 86400, 12345]), rng.randint(0, 1), rng.randrange(max(1, charcnt + 1))) for _ in range(typecnt)]
+        ab = bytes(rng.choice([0, 65, 66, 0]) for _ in range(charcnt))
+        t0 = rng.choice([0, -1000000, 100000000, BIG_BANG, -(1 << 40)])
+        times = [t0 + 10000000 * k for k in range(timecnt)]
+        idx = [rng.randrange(max(1, typecnt + 1)) & 255 for _ in range(timecnt)]
+        ver = rng.choice([b"2", b"2", b"3", b"\0"])
+        std = rng.choice([0, 0, typecnt, 1])
+        ut = rng.choice([0, 0, typecnt, 1])
+        try:
+            zones.append(("s%05d" % j, tzif.write_tzif(ver, times, idx, types, ab, rng.choice(FOOTERS[:6]), isstd=std, isut=ut, v1_block=False)))
+        except Exception:
+            pass
     # purely random byte strings and tiny files
     for j in range(60 if tier == "quick" else 2000):
         L = rng.choice([0, 1, 4, 5, 43, 44, 45, 88, 100, 200])
